@@ -64,6 +64,7 @@ func (fp *quotaEnforcingFilePool) NewFile(holeSource HoleSource, size uint64) (f
 	f, err := fp.base.NewFile(holeSource, size)
 	if err != nil {
 		fp.filesRemaining.release(1)
+		fp.bytesRemaining.release(size)
 		return nil, err
 	}
 	return &quotaEnforcingFile{
